@@ -416,6 +416,30 @@ class Project:
             return sep.join(self.fold(m, e.args[0]))
         if isinstance(e, ast.UnaryOp) and isinstance(e.op, ast.USub):
             return -self.fold(m, e.operand)
+        if isinstance(e, ast.UnaryOp) and isinstance(e.op, ast.Not):
+            return not self.fold(m, e.operand)
+        if isinstance(e, ast.BoolOp):
+            v: Any = None
+            for x in e.values:
+                v = self.fold(m, x)
+                if (isinstance(e.op, ast.And) and not v) or (isinstance(e.op, ast.Or) and v):
+                    return v
+            return v
+        if isinstance(e, ast.IfExp):
+            return self.fold(m, e.body) if self.fold(m, e.test) else self.fold(m, e.orelse)
+        # pure methods of str applied to a foldable string (classification predicates, case, strip ...)
+        if isinstance(e, ast.Call) and isinstance(e.func, ast.Attribute) and not e.keywords and e.func.attr in (
+                "isalnum", "isalpha", "isdigit", "isdecimal", "isspace", "isupper", "islower", "isascii", "isprintable", "upper", "lower",
+                "strip", "lstrip", "rstrip", "startswith", "endswith", "replace", "split", "casefold") and e.func.attr != "join":
+            recv = self.fold(m, e.func.value)
+            if not isinstance(recv, str):
+                raise KeyError(U(e))
+            try:
+                return getattr(recv, e.func.attr)(*[self.fold(m, a) for a in e.args])
+            except KeyError:
+                raise
+            except Exception:
+                raise KeyError(U(e))
         # pure builtin constructors / conversions applied to foldable arguments
         if isinstance(e, ast.Call) and isinstance(e.func, ast.Name) and not e.keywords and e.func.id in (
                 "set", "frozenset", "tuple", "list", "sorted", "chr", "ord", "str", "len", "range", "dict"):
